@@ -58,10 +58,17 @@ func ntreeMain(args []string) error {
 			return err
 		}
 		nk := 10 + cr.intn(200)
+		tiny := cr.chance(1, 5) // a parent that holds little besides its child buckets
+		if tiny {
+			nk = cr.intn(4)
+		}
 		klen := 4 + cr.intn(12)
 		key := func(i int) []byte { return []byte(fmt.Sprintf("%0*d", klen, i*8)) }
 		cname := func(i int) []byte { return []byte(fmt.Sprintf("%0*d", klen, i*8+3)) }
 		vmax := ps / (4 + cr.intn(20))
+		if nk < 4 {
+			vmax = 12
+		}
 		val := func(max int) []byte {
 			v := make([]byte, cr.intn(max+1))
 			for i := range v {
@@ -72,7 +79,7 @@ func ntreeMain(args []string) error {
 		nc := 2 + cr.intn(14)
 		cpos := make([]int, nc) // children sit between the plain keys
 		for i := range cpos {
-			cpos[i] = cr.intn(nk)
+			cpos[i] = cr.intn(nk + 1)
 		}
 		fillChild := func(b *bolt.Bucket, big bool) {
 			n := cr.intn(5)
@@ -117,7 +124,11 @@ func ntreeMain(args []string) error {
 		}
 		p := tx.Bucket([]byte("p"))
 		p.FillPercent = float64(fill) / 100
-		for n := 0; n < 1+cr.intn(6); n++ {
+		nedit := 1 + cr.intn(6)
+		if tiny && cr.chance(1, 2) {
+			nedit = 0 // only the parent's own keys change: no child bucket is opened
+		}
+		for n := 0; n < nedit; n++ {
 			i := cpos[cr.intn(nc)]
 			cb := p.Bucket(cname(i))
 			if cb == nil {
@@ -151,14 +162,14 @@ func ntreeMain(args []string) error {
 			}
 		}
 		if cr.chance(1, 3) { // a new child, created in this transaction
-			if nb, e := p.CreateBucketIfNotExists(cname(nk + 1 + cr.intn(5))); e == nil {
+			if nb, e := p.CreateBucketIfNotExists(cname(nk + 2 + cr.intn(5))); e == nil {
 				nb.FillPercent = float64(fill) / 100
 				fillChild(nb, cr.chance(1, 3))
 			}
 		}
-		if cr.chance(1, 2) { // edits of the parent's own keys
-			for n := 0; n < cr.intn(30); n++ {
-				i := cr.intn(nk)
+		if cr.chance(1, 2) || tiny { // edits of the parent's own keys
+			for n := 0; n < 1+cr.intn(30); n++ {
+				i := cr.intn(nk + 1)
 				if cr.chance(1, 2) {
 					_ = p.Delete(key(i))
 				} else {
